@@ -217,8 +217,14 @@ def one_buffer(case, root, b, world, want_files=True):
     def mon_seq(frag):
         got = 0
         n = 0
+        prev = None
         reads_since()
         for chunk in orig_seq(frag):
+            if prev is not None and prev[0].getvalue() != prev[1]:
+                raise Bad("chunk_aliasing", "get_sequence_iter",
+                          f"buffer_size={b}: a chunk of {frag} that had already been yielded was modified when the next "
+                          f"chunk was produced (was {prev[1][:20]!r}..., now {prev[0].getvalue()[:20]!r}...)")
+            prev = (chunk, chunk.getvalue())
             size = len(chunk.getvalue())
             rd = reads_since()
             if size > b:
